@@ -8,14 +8,14 @@ def fams(tier):
 
 
 def run(tier, seed):
-    extra = []
-    try:
-        import props.C03x as x
-        extra = x.EXTRA
-    except ImportError:
-        pass
+    import cachefam
+    extra = [cachefam.c03_runs]
     return run_proxy_property("C03", tier, seed, fams, 40, 400, RULE, ASSUME, extra_runs=extra)
 
 
 def replay(path):
+    import json
+    if json.load(open(path)).get("kind") == "cachedrv":
+        from props.cachecommon import replay_file as cache_replay
+        return cache_replay("C03", path)
     return replay_file("C03", path)
